@@ -9,10 +9,10 @@ PROP = {
             "a sample of orders 513..4000 (incl. 4000 and 2001); mismatched value/rule lengths in isolated children",
     "floors": {"quick": {"cases": 1200, "distinct_nontrivial": 990, "ticks": {"GaussLegendre.newton": 100000},
                          "clauses": {"nodes-strictly-increasing": 700, "reversed-nodes-strictly-decreasing": 300, "exact-on-legendre-basis-up-to-degree-2n-1": 50000,
-                                     "exact-on-monomials-up-to-degree-2n-1": 20000, "nodes-vs-long-double-reference": 1100, "three-overloads-agree-bit-for-bit": 1200,
+                                     "exact-on-monomials-up-to-degree-2n-1": 20000, "nodes-vs-long-double-reference": 1100, "three-overloads-agree": 1200,
                                      "mismatched-lengths-terminate-with-diagnostic": 40}},
                "thorough": {"cases": 20000, "distinct_nontrivial": 15000, "ticks": {"GaussLegendre.newton": 5000000},
-                            "clauses": {"exact-on-legendre-basis-up-to-degree-2n-1": 1000000, "three-overloads-agree-bit-for-bit": 20000}}},
+                            "clauses": {"exact-on-legendre-basis-up-to-degree-2n-1": 1000000, "three-overloads-agree": 20000}}},
     "exhaustive": {"quick": ["orders n = 1..64, each on 6 interval kinds and both orientations"], "thorough": ["orders n = 1..512, each on 6 interval kinds and both orientations"]},
     "technique": "runtime monitoring: rule-axiom oracles on the returned nodes/weights, exactness on Legendre-basis and monomial test polynomials evaluated in long double, independent long double "
                  "Newton reference (n <= 64), bit comparison of the three overloads, evaluation trace, step budget through the tick hook on the Newton loop, isolated child for rejects; ASan+UBSan build",
